@@ -391,25 +391,29 @@ theorem RK.withScope (scope : Str) {g g' : Gen} (hg : RK env base g g') :
 theorem RK.kwRef (hf : StableFetchS env) {rec rec' : Rec}
     (hrec : ∀ i s, RK env base (rec i s) (rec' i s)) (ref inst : Json) :
     RK env base (kwRef env rec ref inst) (kwRef env rec' ref inst) := by
+  refine kwRef_cases₂ (R := RK env base) (fun hg hh => ?_) (fun r => ?_)
+    (fun _ _ _ hw => ⟨rfl, Or.inl rfl, hw⟩) (fun _ _ _ hw => ⟨rfl, Or.inl rfl, hw⟩) ref
+  · intro b st st' hw
+    unfold ifTopEmpty
+    rw [← hw.top]
+    split
+    · exact hg b st st' hw
+    · exact hh b st st' hw
   intro b st st' hw
-  unfold JS.kwRef
-  cases ref with
-  | str r =>
-    dsimp only
-    obtain ⟨h1, hw1⟩ := resolve_sim hf hw r
-    rcases hr : resolve env r st with ⟨r1, st1⟩
-    rcases hr' : resolve env r st' with ⟨r2, st2⟩
-    rw [hr, hr'] at h1 hw1
-    dsimp only at h1 hw1
-    rcases h1 with rfl | ⟨n, m, u, rfl, rfl, hnone⟩
-    · cases r1 with
-      | ok p =>
-        obtain ⟨url, target⟩ := p
-        exact RK.withScope url (hrec inst target) b st1 st2 hw1
-      | raise e => exact ⟨rfl, Or.inl rfl, hw1⟩
-      | miss q => exact ⟨rfl, Or.inl rfl, hw1⟩
-    · exact ⟨rfl, Or.inr ⟨n, m, u, rfl, rfl, hnone⟩, hw1⟩
-  | _ => exact ⟨rfl, Or.inl rfl, hw⟩
+  rw [kwRef_str, kwRef_str]
+  obtain ⟨h1, hw1⟩ := resolve_sim hf hw r
+  rcases hr : resolve env r st with ⟨r1, st1⟩
+  rcases hr' : resolve env r st' with ⟨r2, st2⟩
+  rw [hr, hr'] at h1 hw1
+  dsimp only at h1 hw1
+  rcases h1 with rfl | ⟨n, m, u, rfl, rfl, hnone⟩
+  · cases r1 with
+    | ok p =>
+      obtain ⟨url, target⟩ := p
+      exact RK.withScope url (hrec inst target) b st1 st2 hw1
+    | raise e => exact ⟨rfl, Or.inl rfl, hw1⟩
+    | miss q => exact ⟨rfl, Or.inl rfl, hw1⟩
+  · exact ⟨rfl, Or.inr ⟨n, m, u, rfl, rfl, hnone⟩, hw1⟩
 
 theorem closed₂_RK (hf : StableFetchS env) : Closed₂ env (RK env base) where
   emit := RK.emit
